@@ -570,6 +570,9 @@ func main() {
 			state := fmt.Sprintf("%s/state-%s-%d.json", tmp, label, attempt)
 			args := mkArgs(attempt, resume, journal, state)
 			env := []string{"GOTRACEBACK=all", "GORACE=halt_on_error=0 exitcode=0"}
+			if strings.HasPrefix(label, "x386") {
+				env = append(env, "VERIF_CLASS_SUFFIX=@386")
+			}
 			res := vlib.RunChild(bin, args, env, nil, 3*time.Hour)
 			mu.Lock()
 			imported := run.ImportState(state)
@@ -641,6 +644,22 @@ func main() {
 				fmt.Sprint(nFlags), fmt.Sprint(nRace), fmt.Sprintf("%s/dump-%d.jsonl", tmp, w)}
 		})
 	})
+	// phase 1b: every second case again in a 32-bit build of the interpreter (int is 32 bits wide: script numbers, lengths,
+	// counters); classes carry "@386"
+	if x386 := bindir + "/c01.x386"; func() bool { _, err := os.Stat(x386); return err == nil }() {
+		vlib.Parallel(4, 4, func(w int) {
+			runWorker(fmt.Sprintf("x386-%d", w), x386, false, func(attempt, resume int, journal, state string) []string {
+				from := 0
+				if resume > 0 {
+					from = resume
+				}
+				return []string{"child", fmt.Sprint(run.Seed), run.Tier, fmt.Sprint(from), fmt.Sprint(nSpends), fmt.Sprint(8), fmt.Sprint(2*w + 1), journal, state,
+					fmt.Sprint(nFlags), "0", fmt.Sprintf("%s/dump386-%d.jsonl", tmp, w)}
+			})
+		})
+	} else {
+		run.Inconclusive("386 variant binary %s missing", x386)
+	}
 	// phase 2: the first nRace spends replayed in the -race build from 8 goroutines sharing one btc.Tx
 	if nRace > 0 {
 		RW := 8
